@@ -27,6 +27,7 @@ func calculateNextQuota(
 	flowControlStatus proxyv1alpha1.RateLimitItemStatus,
 	clientCount int,
 	condition *proxyv1alpha1.RateLimitCondition,
+	recorded int32,
 ) proxyv1alpha1.RateLimitItemConfiguration {
 	newCondition := flowControlConfig.DeepCopy()
 	if flowControlConfig.Strategy == proxyv1alpha1.GlobalCountLimit {
@@ -149,12 +150,16 @@ func calculateNextQuota(
 	}
 
 	// never grow by more than what is left; nothing is left when the allocated
-	// sum exceeds the limit (e.g. after the limit was lowered)
+	// sum exceeds the limit (e.g. after the limit was lowered). The share of the
+	// allocated sum an instance holds is the quota on record for it, not the one
+	// it echoes: nothing is on record for an instance whose record was reclaimed
+	// (its capacity may have been given away) or that reports to a server which
+	// took the shard over without its record.
 	if remaining < 0 {
 		remaining = 0
 	}
-	if next-current > remaining {
-		next = current + remaining
+	if next-float64(recorded) > remaining {
+		next = float64(recorded) + remaining
 	}
 
 	// no quota beyond the limit
